@@ -167,6 +167,10 @@ func (m *Machine) ndStub(name string, args []Value) Value {
 		label, _ := args[0].(Str).concrete()
 		m.covers[label] = true
 		return nil
+	case "Expect":
+		label, _ := args[0].(Str).concrete()
+		m.expects = append(m.expects, label)
+		return nil
 	case "Called":
 		label, _ := args[0].(Str).concrete()
 		return tt.Bool(m.called[label])
